@@ -82,6 +82,10 @@ EXPLANATION += (
     ' Round 12: the validator compares names as stored, without coercion (R-EXH/validator-checks).'
 )
 
+EXPLANATION += (
+    ' Round 13: what is put into a local that is then cached belongs to the cached value (R-MEMO/key-complete).'
+)
+
 RULE_TEXT = (
     "one obligation per constructor path, per attribute-assignment site, "
     "per mutation candidate, per helper parameter, per accessor x caller, "
